@@ -446,7 +446,7 @@ fn main() {
             let heavy = Cfg {
                 alphabet: Alphabet::bam(true, true),
                 bases: bases(),
-                dicts: vec![3, 1, 0],
+                dicts: vec![3, 0],
                 files: vec![FileShape::Raw1, FileShape::Raw3, FileShape::Bgzf3],
                 files_free: true,
                 headers,
